@@ -212,3 +212,53 @@ if __name__ == "__main__":
         if pat in k or pat in fx.fns[k]["name"]:
             print(fx.pp_fn(k))
             print()
+
+
+# ---------------------------------------------------------------- semantic lookups (anchors)
+
+def _adt_key_of(fx, tyid):
+    t = fx.types[tyid]
+    return t["key"] if t["k"] == "adt" else None
+
+
+def find_fn(fx, adt_suffix, item, trait_suffix=None):
+    """function `item` whose impl self type is the ADT whose key ends with adt_suffix"""
+    for f in fx.raw["fns"]:
+        if f.get("item") != item or "self_ty" not in f:
+            continue
+        k = _adt_key_of(fx, f["self_ty"])
+        if k is None or not (k == adt_suffix or k.endswith("::" + adt_suffix)):
+            continue
+        if trait_suffix is None:
+            if f.get("container") == "inherent":
+                return f
+        elif f.get("trait", "").endswith(trait_suffix):
+            return f
+    return None
+
+
+def free_fn(fx, path_suffix):
+    for f in fx.raw["fns"]:
+        if f["kind"] == "Fn" and (f["key"] == path_suffix or f["key"].endswith("::" + path_suffix)):
+            return f
+    return None
+
+
+def avp_variants(fx):
+    """[(variant name, payload adt key, payload type id)] of the AVP enum"""
+    a = None
+    for k, adt in fx.adts.items():
+        if k.endswith("::avp::AVP") and adt["kind"] == "Enum":
+            a = adt
+    if a is None:
+        return []
+    out = []
+    for v in a["variants"]:
+        if len(v["fields"]) == 1:
+            ty = v["fields"][0]["ty"]
+            out.append((v["name"], _adt_key_of(fx, ty), ty))
+    return out
+
+
+def closures_of(fx, key):
+    return sorted(k for k in fx.fns if k.startswith(key + "::{closure#"))
